@@ -100,6 +100,9 @@ def run_property(pid, spec, tier, seed, work, t0, replay=None, no_prove=False):
         pr = {"obligations": ["(skipped)"], "discharged": [], "failed": [], "axioms": {}, "log": ""}
     else:
         pr = C.prove(pid)
+    stale = C.stale_ties(const_status, pid)
+    if stale and not no_prove:
+        pr["failed"] = list(pr["failed"]) + ["source-translation: " + x for x in stale]
     proof_ok = (not pr["failed"]) and (not gate) and len(pr["obligations"]) > 0
 
     # ---- 2./3. build both sides, generate, run -----------------------
@@ -238,6 +241,9 @@ def run_property(pid, spec, tier, seed, work, t0, replay=None, no_prove=False):
         cov["certificates"] = {"zones": len(certs),
                                "zone_ok_true": sum(1 for x in certs if "zone_ok=1" in x),
                                "table_sorted_true": sum(1 for x in certs if "sorted=1" in x),
+                               "c01_whole_domain_true": sum(1 for x in certs if "c01_whole_domain=1" in x),
+                               "whole_domain_true": sum(1 for x in certs if " whole_domain=1" in x),
+                               "whole_domain_note": "c01_whole_domain = wf_ast && c01_domain (hypotheses of c01_whole); whole_domain adds footer_below_day && table_gaps_ok (hypotheses of c02_whole, c03_whole, c06_whole): the boolean hypotheses of the end-to-end theorems evaluated by the extracted model on the bytes of each zone of this run",
                                "note": "zone_ok / table_sorted are the boolean hypotheses of the refinement and selection theorems, evaluated by the extracted model on each zone it loaded"}
     cov.update(spec.get("extra_cov", {}))
     C.write_evidence(pid, tier, seed, cov, time.time() - t0, violations, spec.get("assumptions", []))
